@@ -449,7 +449,7 @@ and then - iff the queue was empty - performs the model's `arm` action of the sa
 theorem tie_AsyncSend (fuel : Nat) (s : St) (t id : Nat) (bytes : Bytes) :
     Gen.AsyncSend enqWorld fuel ⟨s, t, id, bytes, false⟩ =
       (.ok (), ⟨if s.q.isEmpty then step (step s (.enq t id bytes)) (.arm t) else step s (.enq t id bytes), t, id, bytes, false⟩) := by
-  simp (disch := omega) only [Gen.AsyncSend, Gen.DoSend_Tcp, Gen.DoSendEnqueue_Tcp, Gen.M.bind, Gen.M.pure, e_qEmpty, e_qEmplace,
+  simp (disch := omega) only [Gen.AsyncSend, Gen.M.bind, Gen.M.pure, e_qEmpty, e_qEmplace,
     e_lock, e_unlock, e_driverLock, e_driverAsyncWantSend, if_true, if_false, ite_true, ite_false, Bool.false_eq_true]
   cases h : s.q.isEmpty <;>
     simp (disch := omega) only [h, Gen.M.bind, Gen.M.pure, e_driverLock, e_driverAsyncWantSend, if_true, if_false, ite_true,
